@@ -266,7 +266,45 @@ class ndarray:
         return a
 
     def _like(self, cells, shape=None, dt=None, scalar=False):
+        cells = list(cells)
+        n = _b.len(cells)
+        if (shape is None or tuple(shape) == self._shape) and _b.len(self._shape) >= 2 and n == _b.len(self._idx) and not scalar:
+            # element-wise results, casts and order='K' copies keep the memory layout of their operand (a transposed view stays
+            # column-major): the new store is filled in the memory order of `self`
+            order = sorted(range(n), key=lambda i: self._idx[i])
+            if order != list(range(n)):
+                store, idx = [None] * n, [0] * n
+                for pos, i in enumerate(order):
+                    store[pos], idx[i] = cells[i], pos
+                return ndarray(store, idx, self._shape, self.dtype if dt is None else dt, False)
         return ndarray._new(cells, self._shape if shape is None else shape, self.dtype if dt is None else dt, scalar)
+
+    def _order_positions(self, order):
+        """positions into the logical (C-order) cell list in the traversal order NumPy uses for order = 'C' / 'F' / 'A' / 'K'"""
+        n = self.size
+        nd = _b.len(self._shape)
+        if order in (None, 'C', 'c') or nd < 2:
+            return list(range(n))
+        L = _np.arange(n).reshape(self._shape)
+        if order in ('F', 'f'):
+            return L.T.reshape(-1).tolist()
+        fl = self.flags
+        if order in ('A', 'a'):
+            return L.T.reshape(-1).tolist() if (fl.f_contiguous and not fl.c_contiguous) else list(range(n))
+        if order not in ('K', 'k'):
+            raise ValueError("order must be one of 'C', 'F', 'A', or 'K'")
+        M = _np.array(self._idx, dtype=_np.int64).reshape(self._shape)          # memory position of every logical cell
+        strides = []
+        for ax in range(nd):
+            if self._shape[ax] < 2:
+                strides.append(0)
+                continue
+            d = _np.diff(M, axis=ax)
+            if not (d == d.reshape(-1)[0]).all():
+                raise OutOfModel('memory-order traversal of a view that is not strided')
+            strides.append(int(d.reshape(-1)[0]))
+        perm = sorted(range(nd), key=lambda ax: -_b.abs(strides[ax]))            # (stable: ties keep the C order)
+        return L.transpose(perm).reshape(-1).tolist()
 
     # ---- basic attributes
     @property
@@ -342,7 +380,11 @@ class ndarray:
         return self._like(self._cells(), scalar=self._scalar)
 
     def copy(self, order='C'):
-        return self._like(self._cells(), scalar=self._scalar)
+        if order in ('K', 'k', 'A', 'a') or _b.len(self._shape) < 2:
+            return self._like(self._cells(), scalar=self._scalar)
+        if order in ('F', 'f'):
+            return transpose(transpose(self).copy('C'))
+        return ndarray._new(self._cells(), self._shape, self.dtype, self._scalar)
 
     __hash__ = None
 
@@ -415,10 +457,15 @@ class ndarray:
         return _nest(cells, self._shape)
 
     def flatten(self, order='C'):
-        return self._like(self._cells(), shape=(self.size,))
+        cells = self._cells()
+        return ndarray._new([cells[i] for i in self._order_positions(order)], (self.size,), self.dtype)
 
     def ravel(self, order='C'):
-        return ndarray(self._store, list(self._idx), (self.size,), self.dtype)
+        pos = self._order_positions(order)
+        if pos == list(range(self.size)) and self.flags.c_contiguous:
+            return ndarray(self._store, list(self._idx), (self.size,), self.dtype)          # a view
+        cells = self._cells()
+        return ndarray._new([cells[i] for i in pos], (self.size,), self.dtype)               # (NumPy copies when it has to)
 
     def reshape(self, *shape, **kw):
         if 'shape' in kw:
@@ -810,6 +857,11 @@ asanyarray = asarray
 ascontiguousarray = asarray
 
 
+def asfortranarray(a, dtype=None, **kw):
+    a = array(a, dtype=dtype)
+    return a.copy('F') if _b.len(a._shape) >= 2 else a
+
+
 def array_equal(a1, a2, equal_nan=False):
     a1 = a1 if _isinstance(a1, ndarray) else asarray(a1)
     a2 = a2 if _isinstance(a2, ndarray) else asarray(a2)
@@ -1009,6 +1061,13 @@ def _binop(op, a, b):
         if rdt.kind == 'O':
             return res[0]
         return ndarray._new(res, (), rdt, True)
+    # the output of a ufunc follows the memory layout of its array operands (order='K')
+    for t in (a, b):
+        if _isinstance(t, ndarray) and t._shape == tuple(shp) and _b.len(t._shape) >= 2 and not t.flags.c_contiguous:
+            o = b if t is a else a
+            if not _isinstance(o, ndarray) or o._shape == () or (o._shape == t._shape and
+                                                                 sorted(range(o.size), key=lambda i: o._idx[i]) == sorted(range(t.size), key=lambda i: t._idx[i])):
+                return t._like(res, dt=rdt)
     return ndarray._new(res, shp, rdt)
 
 
@@ -1615,7 +1674,7 @@ def reshape(a, *args, **kw):
 
 @_dispatch('function')
 def ravel(a, order='C'):
-    return asarray(a).ravel()
+    return asarray(a).ravel(order)
 
 
 @_dispatch('function')
